@@ -80,6 +80,7 @@ type sResult struct { // one benchmark line
 
 type sSet struct {
 	hasBaseOnly bool
+	sameInstant []int // experiments that share their instant with the previous one (COMBINE sets only)
 	foreign     map[string]bool // (unit, table, bench, exp) measured under a role that is neither numerator nor denominator
 	sparseKeys bool // numerator results carry no denominator hash, baseline results no numerator hash/stamp
 	points  []sPoint
@@ -179,6 +180,12 @@ func sGenSet(T *sim.Tape, allowNoDen bool) *sSet {
 					}
 				}
 			}
+			if !allowNoDen && e > 0 && T.Intn(6, "same-instant-experiment") == 0 {
+				// (COMBINE only, where no experiment has to win:) a second experiment at the very instant of the
+				// previous one, its stamp spelled differently - still an experiment of its own
+				at = s.exps[e-1]
+				s.sameInstant = append(s.sameInstant, e)
+			}
 			s.exps = append(s.exps, at)
 			pts := []int{pi}
 			if !s.points[pi].noDen && T.Intn(4, "shared-baseline") == 0 {
@@ -202,6 +209,17 @@ func sGenSet(T *sim.Tape, allowNoDen bool) *sSet {
 	for e := range s.exps {
 		sp := sSpellings(s.exps[e])
 		s.spell[e] = sp[spellIdx(len(sp))]
+	}
+	for _, e := range s.sameInstant {
+		sp := sSpellings(s.exps[e])
+		for i := range sp {
+			if sp[i] == s.spell[e-1] {
+				s.spell[e] = sp[(i+1)%len(sp)] // same instant, another spelling
+			}
+		}
+		if s.spell[e] == s.spell[e-1] {
+			s.spell[e] = sp[0]
+		}
 	}
 	for p := range s.points {
 		sp := sSpellings(s.points[p].at)
@@ -372,7 +390,7 @@ func (r *sResult) text() string {
 		fmt.Fprintf(&b, "%s: %s\n", kv[0], kv[1])
 	}
 	b.WriteString("\n")
-	fmt.Fprintf(&b, "Benchmark%s 1", r.name)
+	fmt.Fprintf(&b, "Benchmark%s %d", r.name, []int{1, 1, 100, 0}[(r.exp+len(r.vals))%4]) // the iteration count (0 included) says nothing about whether the line is a measurement
 	for _, v := range r.vals {
 		fmt.Fprintf(&b, " %v %s", v.Value, v.Unit)
 	}
@@ -1102,7 +1120,7 @@ var c18Engine = &sim.Engine{
 	Rule: "one run = a generated set of results (1-3 units, 1-2 tables, 1-4 benchmarks, 1-4 series points, 1-4 experiments per point, shared baselines, mirrored cells, time stamps in both accepted formats, whole seconds or fractions, experiments within one second of each other; zero-valued and baseline-only cells; one of six filter expressions) added to fresh benchseries.Builders in 2-5 drawn orders (through a real benchfmt.Reader or AddFiles over temp files split at drawn points), with the iteration order of every hash map in benchseries drawn from the tape, under one duplicate policy; the canonicalised AllComparisonSeries output must equal a reference model computed from the set and be identical across orders; bootstrap summaries (50-5000 resamples) must be ordered, within the attainable ratio range and reproducible, also when recomputed under another processor count; all spellings of every instant must normalise identically and sort chronologically; " +
 		"non-trivial = at least 4 results and 2 orders; distinct = distinct canonical outputs",
 	Assumptions: []string{
-		"input invariants of real bent data (DESIGN.md A.4): series stamp <-> numerator hash one-to-one, denominator hash a function of the series stamp, distinct experiment instants, every stamp parses",
+		"input invariants of real bent data (DESIGN.md A.4): series stamp <-> numerator hash one-to-one, denominator hash a function of the series stamp, distinct experiment instants (under COMBINE two experiments may share an instant in different spellings), every stamp parses",
 		"under COMBINE every trial has a denominator (a point lacking one makes AllComparisonSeries dereference a nil cell whatever the order; recorded in DESIGN.md, not part of the property)",
 		"the hash pair of a series point carries the denominator hash as soon as one of its trials has baseline measurements (REPLACE lanes mix experiments with and without a baseline)",
 		"confidence >= 0.5, resample counts >= 50, positive measurements; timestamps are the workload's own, whole seconds or with a fraction, some experiments within one second of each other (the timestamp input space is not swept)",
